@@ -50,7 +50,7 @@ META = {
     'require_counters': {'any': ['calls_returned', 'calls_raised', 'recursion_error_7_seen', 'conversion_error_13_seen',
                                  'conversion_error_6_seen', 'soft_float_error_calls', 'shadowed_parameter_calls',
                                  'collections_during_fn_evaluation', 'projection_values_checked', 'model_values_checked',
-                                 'in_program_trapped_errors']},
+                                 'in_program_trapped_errors', 'retyped_parameter_values_checked']},
     'timeout': {'quick': 900, 'thorough': 10800},
 }
 
@@ -152,7 +152,8 @@ def diff_dumps(before, after, ignore=()):
             if (b or a) and any(x not in (0, b'', 0.0) for x in _flat(b or a)):
                 out.append((n, b, a))
             continue
-        if a != b or type(a) != type(b):
+        # a variable created by the call counts as unchanged if it reads as 0 / "" (the default has no type of its own)
+        if a != b or (n in before and n in after and type(a) != type(b)):
             out.append((n, b, a))
     return out
 
@@ -204,6 +205,26 @@ class Session20(object):
 
     def expected(self, call, scope):
         m = self.model
+        a = self._expected(call, scope)
+        if not m.retyped:
+            return a
+        # DEFtype changed between DEF FN and the call: the statement does not say which of the two types the argument is
+        # converted to; whichever it is, the BODY must see the argument (not the caller's variable of that name)
+        if any(kw == 'DEFSTR' for kw, _ in self.case.get('deftypes2', [])):
+            return ('unknown',)
+        m.convert_by_def_type = True
+        try:
+            b = self._expected(call, scope)
+        finally:
+            m.convert_by_def_type = False
+        if a == b:
+            return a
+        if a[0] == 'value' and b[0] == 'value':
+            return ('values', [a[1], b[1]])
+        return ('unknown',)
+
+    def _expected(self, call, scope):
+        m = self.model
         try:
             return ('value', m.call(call['fn'], call['args'], scope))
         except fg.ModelError as e:
@@ -219,6 +240,8 @@ class Session20(object):
         f = m.fns[fg.full_name(call['fn'], m.deftype)]
         if f.get('kind') != 'proj':
             return None
+        if m.retyped and fg.sigil_of(f['proj'], m.deftype) != fg.sigil_of(f['proj'], m.deftype_def):
+            return None                   # judged by the two-reading reference values instead
         idx = f['params'].index(f['proj'])
         ty = fg.sigil_of(f['proj'], m.deftype)
         return fg.full_name(f['proj'], m.deftype), idx, 'ZC' + ty
@@ -349,8 +372,19 @@ class Session20(object):
                                   '%s returned %r, the argument assigned to a %s variable is %r'
                                   % (text, raw, sig, proj_exp[2]), case)
             return
+        if exp[0] == 'values':
+            res.count('model_values_checked')
+            res.count('retyped_parameter_values_checked')
+            mine = raw if sig == '$' else rnum.decode(raw)
+            if mine not in exp[1]:
+                res.violation('value:retyped-parameter-not-the-argument',
+                              '%s returned %r after the DEFtype of a parameter letter changed; the argument converted to the '
+                              'old or the new type gives %r' % (text, mine, exp[1]), case)
+            return
         if exp[0] == 'value':
             res.count('model_values_checked')
+            if m.retyped:
+                res.count('retyped_parameter_values_checked')
             want = exp[1]
             mine = raw if sig == '$' else rnum.decode(raw)
             if mine != want:
@@ -591,6 +625,31 @@ def directed_cases():
         ]
     cases.append({'deftypes': [], 'fns': fns,
                   'globals': [['X%', 77], ['S$', 'glob'], ['X!', 5.0], ['Y$', 'why']], 'arrays': [['X!', [1.5, 2.5]]], 'calls': calls})
+    # DEFtype of an unsuffixed parameter's letter changes between DEF FN and the call
+    fns = [
+        {'name': 'FNA#', 'params': ['X'], 'body': ['*', ['V', 'X'], K(2)], 'kind': 'value'},
+        {'name': 'FNB#', 'params': ['X', 'Y'], 'body': ['+', ['V', 'X'], ['V', 'Y']], 'kind': 'value'},
+        {'name': 'FNC#', 'params': ['N', 'W$'], 'body': ['+', ['V', 'N'], ['LEN', ['V', 'W$']]], 'kind': 'value'},
+        {'name': 'FND#', 'params': ['Z'], 'body': ['+', ['FN', 'FNA#', [['V', 'Z']]], ['V', 'X']], 'kind': 'value'},
+    ]
+    calls = []
+    for form in ('eval', 'print', 'let'):
+        calls += [
+            {'fn': 'FNA#', 'args': [K(3)], 'form': form},
+            {'fn': 'FNA#', 'args': [['V', 'X!']], 'form': form},
+            {'fn': 'FNB#', 'args': [K(1), K(2)], 'form': form},
+            {'fn': 'FNB#', 'args': [['V', 'Y#'], ['V', 'X%']], 'form': form},
+            {'fn': 'FNC#', 'args': [K(4), KS('abc')], 'form': form},
+            {'fn': 'FND#', 'args': [K(8)], 'form': form},
+            {'fn': 'FNA#', 'args': [K(40000)], 'form': form},
+            {'fn': 'FNA#', 'args': [KS('s')], 'form': form},
+        ]
+    for d2 in ([['DEFINT', 'X'], ['DEFDBL', 'Y']], [['DEFDBL', 'X'], ['DEFINT', 'N'], ['DEFINT', 'Z']], [['DEFSTR', 'X'], ['DEFINT', 'Y']],
+               [['DEFINT', 'X-Z'], ['DEFSNG', 'N']]):
+        cases.append({'deftypes': [['DEFDBL', 'N']], 'deftypes2': d2, 'fns': fns,
+                      'globals': [['X!', 7.0], ['X%', 5], ['X#', 11.0], ['X$', 'gx'], ['Y!', 1.5], ['Y#', 2.25], ['Y%', 9], ['N#', 6.0],
+                                  ['N%', 13], ['N!', 21.0], ['Z!', 30.0], ['Z%', 31], ['W$', 'glob']],
+                      'arrays': [['X%', [1, 2, 3]]], 'calls': calls})
     return cases
 
 
